@@ -562,4 +562,30 @@ ItrTouchesOnlyCurrent == [][(Len(hist') > Len(hist) /\ LastOp' \in {"itr_update"
 EmitState == PrintT(<<"STATE", ToJson([h |-> hist, s |-> StateOut, probes |-> Probes])>>)
 EmitEdge == PrintT(<<"EDGE", ToJson([h |-> hist', s |-> StateOut'])>>)
 View == <<cifs, cont, loops, vals, nextId, hc, hl, itr, snap>>
+-----------------------------------------------------------------------------
+(***************************************************************************)
+(* Allocation faults (C17).  While it executes one call the implementation *)
+(* requests some number of dynamic allocations (its own, the hash tables', *)
+(* the storage engine's).  For every enabled call r and every one of those *)
+(* requests there is a fault variant of r: the request fails, the call     *)
+(* reports CIF_MEMORY_ERROR or CIF_ERROR, hands nothing out, and the whole *)
+(* state - the store and what the caller holds - is as before; the same    *)
+(* call made again is r itself.  How many requests a call makes is not     *)
+(* modelled: the replay counts them and enumerates the variants.           *)
+(*                                                                         *)
+(* A variant whose failure the implementation absorbs (the call completes  *)
+(* exactly as r) is also a behaviour of Faulted: no error is due when      *)
+(* nothing was lost.                                                       *)
+(***************************************************************************)
+MEMORY_ERROR == 3
+FaultRcs == {MEMORY_ERROR, ERROR}
+Faulted(r) == {On([r.e EXCEPT !.rc = rc], Cur) : rc \in FaultRcs} \cup {r}
+\* a fault variant never moves the state unless it is the call itself, and after it the call is still enabled with the same result
+\* calls that report a result code (the void release functions have nothing to report a failure with)
+Fallible == {r \in EnabledResults : "rc" \in DOMAIN r.e}
+FaultLeavesState == \A r \in Fallible : \A f \in Faulted(r) : f = r \/ (f.new = Cur /\ f.e.rc \in FaultRcs)
+StateOutOf(n) == [cifs |-> n.cifs, cont |-> n.cont, loops |-> n.loops, vals |-> n.vals, tx |-> [c \in CIFS |-> n.itr[c] # NoneH]]
+\* everything the replay needs to enumerate the variants in a state: each enabled call with the state it leads to
+EmitFault == PrintT(<<"FSTATE", ToJson([h |-> hist, s |-> StateOut,
+                                        calls |-> {[e |-> r.e, s2 |-> StateOutOf(r.new), same |-> r.new = Cur] : r \in Fallible}])>>)
 =============================================================================
